@@ -72,6 +72,22 @@ package state
 //@   ensures [journalsOldNonce] dyntype(s.db.journal.entries[old(len(s.db.journal.entries))]) == typeid(nonceChange) && unbox(s.db.journal.entries[old(len(s.db.journal.entries))], nonceChange).prev == old(s.data.Nonce)
 //@   ensures [journalsAccount] *unbox(s.db.journal.entries[old(len(s.db.journal.entries))], nonceChange).account == s.address
 
+//@ func (s *StateDB) SubRefund(gas uint64)
+//@   for C08
+//@   requires s != nil && s.journal != nil && s.journal.dirties != nil
+//@   modifies s.refund, s.journal.entries, s.journal.dirties[_], []journalEntry
+//@   ensures [valueSet] s.refund == old(s.refund) - gas
+//@   ensures [journalsOldRefund] len(s.journal.entries) == old(len(s.journal.entries)) + 1 && dyntype(s.journal.entries[old(len(s.journal.entries))]) == typeid(refundChange) && unbox(s.journal.entries[old(len(s.journal.entries))], refundChange).prev == old(s.refund)
+
+// A copy of the state owns its objects: every state object copied into it points back at the COPY (its
+// journal, its database), never at the original.
+//@ func (s *StateDB) Copy() (r *StateDB)
+//@   for C08
+//@   requires s != nil
+//@   modifies *
+//@   opt assumecallreqs
+//@   atcall stateObject.deepCopy requires [copiedObjectsBelongToTheCopy] db == outer(state) && db != outer(s)
+
 // Self-destruct journals the mark and the balance as they were BEFORE it changes them, then marks the
 // account and empties it -- every time it is called, also on an account already marked.
 //@ func (s *StateDB) Suicide(addr common.Address) (r bool)
@@ -99,7 +115,7 @@ package state
 //@   modifies s.originStorage[_], s.trie, s.db.dbErr, s.db.SnapshotStorageReads, s.db.StorageReads
 //@   ensures [dirtyValueWins] old(has(s.dirtyStorage, key)) ==> r == old(s.dirtyStorage[key])
 //@ func (s *stateObject) SetState(db Database, key, value common.Hash)
-//@   for C08
+//@   for C08 C10
 //@   requires s != nil && s.db != nil && s.db.journal != nil && s.db.journal.dirties != nil && s.dirtyStorage != nil
 //@   modifies *
 //@   atcall journal.append requires [journalsCurrentValue] dyntype(entry) == typeid(storageChange) && unbox(entry, storageChange).key == key && *unbox(entry, storageChange).account == s.address && unbox(entry, storageChange).prevalue == prev && prev != value
